@@ -12,6 +12,9 @@ import (
 	"encoding/json"
 	"flag"
 	"fmt"
+	"github.com/PowerDNS/lightningstream/syncer"
+	"github.com/PowerDNS/lightningstream/syncer/events"
+	"github.com/PowerDNS/lightningstream/syncer/hooks"
 	"io"
 	"sort"
 	"strings"
@@ -509,6 +512,56 @@ func main() {
 	pa.Bound = fmt.Sprintf("native and shadow x %d entry subsets (all subsets of size<=3 of 8 boundary entries; quick: every third 3-subset) x variants {plain, +empty flagged DBI and flagged DBI, +private _sync DBIs, both}, each followed by a second snapshot after a change; one 1.5 MB value", len(subsets))
 	pa.Samples = []any{"entries=[2 4 6] variant=3 native: key c=5kB value with 2 extension blocks @2^63; key e deleted|unsynced with 1 extension block; 511-byte key"}
 	r.AddPart(pa)
+
+	// ---------- part (c): the stored name is the name of the final snapshot info ----------
+	{
+		pcn := &ev.Part{Name: "c-name-with-extension-hooks", Engine: "E1", Exhaustive: true, Bound: "native and shadow x UpdateSnapshotInfo hook {absent, adds one extra name item, adds two}; the stored blob name, the UpdateStored hook and the metadata must agree"}
+		for _, native := range []bool{true, false} {
+			for nx := 0; nx <= 2; nx++ {
+				bkt := world.NewBucket()
+				var announced []snapshot.NameInfo
+				h := &hooks.Hooks{UpdateStored: func(info events.UpdateInfo) error { announced = append(announced, info.NameInfo); return nil }}
+				if nx > 0 {
+					h.UpdateSnapshotInfo = func(si hooks.SnapshotInfo) error {
+						for i := 0; i < nx; i++ {
+							si.NameInfo.Extra = append(si.NameInfo.Extra, snapshot.NameExtraItem(fmt.Sprintf("X%d", i)))
+						}
+						return nil
+					}
+				}
+				a := inst.New("a", bkt, inst.Opt{Native: native, SyncerOpt: &syncer.Options{Hooks: h}})
+				a.AppTxn(func(txn *lmdb.Txn) error {
+					if native {
+						inst.NativePut(txn, "d", []byte("k"), 5, false, []byte("v"))
+					} else {
+						inst.PlainPut(txn, "d", 0, []byte("k"), []byte("v"))
+					}
+					return nil
+				})
+				_, err := a.Send()
+				pcn.Executions++
+				pcn.Transitions++
+				names := bkt.Names()
+				what := fmt.Sprintf("native=%v extra items=%d", native, nx)
+				switch {
+				case err != nil || len(names) != 1 || len(announced) != 1:
+					r.Violate(pcn.Name, "send-with-hooks-failed", fmt.Sprintf("%s: err=%v blobs=%v announced=%d", what, err, names, len(announced)), nil)
+				default:
+					ni, perr := snapshot.ParseName(names[0])
+					if perr != nil || len(ni.Extra) != nx || names[0] != announced[0].BuildName() {
+						r.Violate(pcn.Name, "stored-name-differs-from-announced-snapshot-info", fmt.Sprintf("%s: stored as %q (parse err %v, extra %v), UpdateStored announced %q", what, names[0], perr, ni.Extra, announced[0].BuildName()), nil)
+					}
+					data, _ := bkt.Get(names[0])
+					if _, snap, derr := decodeSnap(data); derr != nil || snap.Meta.InstanceID != ni.InstanceID || snap.Meta.DatabaseName != ni.SyncerName || snap.Meta.TimestampNano != uint64(ni.Timestamp.UnixNano()) {
+						r.Violate(pcn.Name, "name-and-metadata-disagree", fmt.Sprintf("%s: name %q, decode err %v", what, names[0], derr), nil)
+					}
+				}
+				a.Destroy()
+			}
+		}
+		pcn.States, pcn.Distinct = 6, 6
+		r.AddPart(pcn)
+	}
 
 	// ---------- part (b) ----------
 	for _, native := range []bool{true, false} {
